@@ -146,6 +146,22 @@ func (g *boardGen) stmt(sc *lbScope, depth int) *LStmt {
 		}
 		return &LStmt{Key: append(g.path(), "class"), Val: LLit(Pick(r, g.classes))}
 	case 7: // glob
+		if depth == 0 && r.P(0.4) {
+			// globs that target or create connections
+			ar := Pick(r, []string{"->", "->", "--"})
+			switch r.Intn(4) {
+			case 0:
+				a := Pick(r, lgEdgeAttrs)
+				return &LStmt{Src: []string{"*"}, Dst: []string{"*"}, Arrow: ar, Idx: "*", EKey: append([]string{}, a.key...), Val: LLit(a.val(r)), Tag: "glob"}
+			case 1:
+				a := Pick(r, lgEdgeAttrs)
+				return &LStmt{Src: []string{"*"}, Dst: []string{g.name()}, Arrow: ar, Idx: "*", EKey: append([]string{}, a.key...), Val: LLit(a.val(r)), Tag: "glob"}
+			case 2:
+				return &LStmt{Src: []string{"*"}, Dst: []string{g.name()}, Arrow: ar, Tag: "glob"}
+			default:
+				return &LStmt{Src: []string{g.name()}, Dst: []string{"*"}, Arrow: ar, Tag: "glob"}
+			}
+		}
 		a := Pick(r, lgObjAttrs[:4])
 		pat := Pick(r, []string{"*", "*", "**", "***", "***", "a*", "*.*"})
 		key := append([]string{}, a.key...)
@@ -214,13 +230,43 @@ func (g *boardGen) body(n int, sc *lbScope, level int, isRoot bool) []*LStmt {
 				bsc = stepScope // steps accumulate
 			}
 			name := fmt.Sprintf("%s%d", map[string]string{"layers": "l", "scenarios": "sc", "steps": "st"}[k], j+1)
-			blk.Body = append(blk.Body, &LStmt{Key: []string{name}, HasBody: true, Body: g.body(r.Range(1, 5), bsc, level+1, false)})
+			bb := g.body(r.Range(1, 5), bsc, level+1, false)
+			if j > 0 && r.P(0.5) {
+				// sibling boards that add the SAME new objects / connections
+				first := lbPlain(blk.Body[0].Body)
+				for i := 0; i < len(first) && i < r.Range(1, 2); i++ {
+					bb = append(LClone([]*LStmt{first[i]}), bb...)
+				}
+			}
+			blk.Body = append(blk.Body, &LStmt{Key: []string{name}, HasBody: true, Body: bb})
 		}
 		out = append(out, blk)
+		if r.P(0.35) && len(blk.Body) > 0 {
+			// the base declares, after the block, what a board of the block declared
+			if pl := lbPlain(Pick(r, blk.Body).Body); len(pl) > 0 {
+				out = append(out, LClone([]*LStmt{Pick(r, pl)})...)
+			}
+		}
 		// statements between / after board blocks
 		for i := 0; i < r.Range(0, 2); i++ {
 			out = append(out, g.stmt(sc, 0))
 		}
+	}
+	return out
+}
+
+// lbPlain: the object / connection declarations of a board body (no board blocks, globs,
+// nulls, indexed references).
+func lbPlain(body []*LStmt) []*LStmt {
+	var out []*LStmt
+	for _, s := range body {
+		if s.Raw != "" || s.Tag != "" || (s.Val != nil && s.Val.Null) || s.Idx != "" {
+			continue
+		}
+		if !s.IsEdge() && len(s.Key) == 1 && (s.Key[0] == "layers" || s.Key[0] == "scenarios" || s.Key[0] == "steps" || s.Key[0] == "classes" || s.Key[0] == "vars") {
+			continue
+		}
+		out = append(out, s)
 	}
 	return out
 }
